@@ -240,6 +240,7 @@ def check_call(contract, fn, args, kwargs=None, ns=None, exc_classes=None):
     env = dict(ns)
     env.update(getattr(fn, "__globals__", {}) if False else {})
     env.update(bound.arguments)
+    pyspec._ROOTS = list(bound.arguments.values())
     # *args parameters appear as tuples under their name
     try:
         with warnings.catch_warnings():
